@@ -13,6 +13,7 @@ OUTSIDE = ['streams other than the skeleton', 'filter lists longer than 2 entrie
 EXPLORE_OPTS = {'max_paths': 60000, 'max_seconds': 900}
 T1, T2, P1, P2 = 0x1d3, 0x2e4, 77, 88
 T3, P3 = 0x3f5, 99            # a thread the thread map does not list: announced in mid-stream by a record of thread T1
+T4, P4 = 0x4a6, 55            # another one, announced by a sampler thread-info record (class 0x25) logged by thread T2
 THREADS = [(T1, P1, b'procA'), (T2, P2, b'procB')]
 DBG_MACH, DBG_FSYSTEM, DBG_BSD, DBG_TRACE, DBG_PERF, DBG_DYLD = 1, 3, 4, 7, 0x25, 0x1f
 
@@ -39,6 +40,9 @@ def structures(tier):
             sts.append({'kind': 'select', 'tid': tidf, 'proc': proc, 'nc': 0, 'ns': 0})
     sts.append({'kind': 'select', 'tid': False, 'proc': 'procB', 'nc': 1, 'ns': 0, 'c': [4]})
     sts.append({'kind': 'select', 'tid': False, 'proc': str(P3), 'nc': 0, 'ns': 0})
+    sts.append({'kind': 'select', 'tid': False, 'proc': str(P4), 'nc': 0, 'ns': 0})
+    sts.append({'kind': 'select', 'tid': True, 'proc': str(P4), 'nc': 0, 'ns': 0})
+    sts.append({'kind': 'select', 'tid': True, 'proc': str(P4), 'nc': 1, 'ns': 0, 'c': [4]})
     for proc in ('0', 'kernel_task', '-1', ''):
         sts.append({'kind': 'select', 'tid': False, 'proc': proc, 'nc': 0, 'ns': 0, 'pid0': True})
     sts.append({'kind': 'select', 'tid': True, 'proc': str(P3), 'nc': 1, 'ns': 0, 'c': [4]})
@@ -75,6 +79,7 @@ def weight(st):
 
 _EXEC_TS = [0]
 _NT_TS = [0]
+_TD_TS = [0]
 
 
 def skeleton(ctx):
@@ -104,6 +109,8 @@ def skeleton(ctx):
     ev('BSC_read', 2, T2, [0, ctx.int('orphan'), 0, 0])          # an END whose START precedes the dump
     ev('BSC_getpid', 1, T3, [0, 0, 0, 0])                        # a thread nobody declared yet
     ev('BSC_getpid', 2, T3, [0, ctx.int('pid3a'), 0, 0])
+    ev('BSC_getpid', 1, T4, [0, 0, 0, 0])
+    ev('BSC_getpid', 2, T4, [0, ctx.int('pid4a'), 0, 0])
     sample(T1, 'a')
     ev('DYLD_uuid_map_a', 0, T2, data=bytes(range(1, 17)) + K.to_le(ctx.int('img'), 8) + bytes(8))
     for tid, tag in ((T1, 'x'), (T2, 'y')):
@@ -115,6 +122,10 @@ def skeleton(ctx):
     _NT_TS[0] = ts[0]
     ev('BSC_getpid', 1, T3, [0, 0, 0, 0])
     ev('BSC_getpid', 2, T3, [0, ctx.int('pid3b'), 0, 0])
+    ev('PERF_THD_Data', 0, T2, [P4, T4, 0, 0])                   # T2 logs thread info about thread T4 of process P4
+    _TD_TS[0] = ts[0]
+    ev('BSC_getpid', 1, T4, [0, 0, 0, 0])
+    ev('BSC_getpid', 2, T4, [0, ctx.int('pid4b'), 0, 0])
     # process P2 execs: its name changes in mid-stream
     ev('TRACE_DATA_EXEC', 0, T2, [P2, 0, 0, 0])
     ev('TRACE_STRING_EXEC', 0, T2, data=b'execd' + bytes(27))
@@ -196,7 +207,7 @@ def run(ctx, st):
     except Exception as e:      # noqa
         __import__('vxlib.symx.core', fromlist=['x']).proxy_rejected(e)
         ctx.check('C13/no-error', False, '%s: %s' % (type(e).__name__, e)); ctx.reach(); return
-    pmap = {T1: (P1, 'procA'), T2: (P2, 'procB'), T3: (P3, '')}
+    pmap = {T1: (P1, 'procA'), T2: (P2, 'procB'), T3: (P3, ''), T4: (P4, '')}
     if st.get('pid0'):
         pmap[T1] = (0, 'kernel_task')
 
@@ -211,6 +222,8 @@ def run(ctx, st):
                 nm = 'execd'          # the process the dump declares for the thread at that point of the stream
             if e.tid == T3 and t.ktraces[-1].timestamp < _NT_TS[0]:
                 pid, nm = -1, ''      # not declared yet
+            if e.tid == T4 and t.ktraces[-1].timestamp < _TD_TS[0]:
+                pid, nm = -1, ''
             ok = And(ok, st['proc'] in (str(pid), nm))
         if orig_c or orig_s:
             ok = And(ok, Or(*([(e.eventid >> 24) == c for c in orig_c] + [(e.eventid >> 16) == s for s in orig_s])))
